@@ -478,6 +478,12 @@ def accounted(text, forms, what):
 K = strict.lit          # a statement the translator knows and does not translate: it must be there, exactly like this, in this place
 
 
+PRINT_BLOCK = r'''const char *color = inner_converged ? "\x1b[0;32m" : "\x1b[0;31m"; const char *color_end = "\x1b[0m";
+ *os << "[\x1b[0;34mALM\x1b[0m]   " << std::setw(5) << i << ": ‖Σ‖ = " << print_real(Σ_curr.norm()) << ", ‖y‖ = " << print_real(y.norm())
+ << ", δ = " << print_real(norm_e) << ", ε = " << print_real(ps.ε) << ", status = " << color << std::setw(13) << ps.status << color_end
+ << ", iter = " << std::setw(13) << ps.iterations << std::endl;'''
+
+
 def account_loop(loop):
     """consume-everything: the body of the outer loop is exactly this statement sequence (the translated expressions are `.*`
     here and are parsed by gen_alm; everything else is fixed text).  Returns the matches."""
@@ -512,9 +518,10 @@ def account_loop(loop):
         ("error swap", K("error.swap(error_old);"), "1"),
     ], "outer loop of ALMSolver::operator()")
     try:
-        # printing only: local string constants and output to *os
-        accounted(strict.control(r["print block"].group(0), "if")[1],
-                  [("print statements", r"const\s+char\s*\*\s*\w+\s*=.*;|\*os\s*<<.*;", "*")], "print block of the outer loop")
+        # printing only (two local string constants and one output statement): not translated, its text is known
+        pb = strict.control(r["print block"].group(0), "if")
+        if pb[2] is not None or "".join(pb[1].split()) != "".join(PRINT_BLOCK.split()):
+            raise OutOfGrammar("print block of the outer loop differs from the known text")
         for blk in ("Interrupted block", "exit block"):
             c = strict.control(r[blk].group(0), "if")
             if c[2] is not None:
@@ -757,9 +764,9 @@ def gen_acc(repo):
             members = strict.split_statements(sb)
         except strict.Unaccounted as ex:
             raise OutOfGrammar("struct %s: %s" % (sname, ex))
-        for st in members:
-            if re.fullmatch(strict.lit("USING_ALPAQA_CONFIG(Conf);"), st):
-                continue
+        if not members or not re.fullmatch(strict.lit("USING_ALPAQA_CONFIG(Conf);"), members[0]):
+            raise OutOfGrammar("struct %s does not start with USING_ALPAQA_CONFIG(Conf);" % sname)
+        for st in members[1:]:
             m = re.fullmatch(r"(?:unsigned|real_t)\s+(\w+)\s*=\s*0\s*;|std::chrono::nanoseconds\s+(\w+)\s*\{\s*\}\s*;|"
                              r"SolverStatus\s+(\w+)\s*=\s*SolverStatus::Busy\s*;|real_t\s+(\w+)\s*=\s*inf<config_t>\s*;", st)
             if not m:
